@@ -1,4 +1,5 @@
 import PyecoreModel.Lemmas.StoreProps
+import PyecoreModel.Lemmas.SetOps
 /-!
 # C01 — Opposite references stay symmetric
 
@@ -22,6 +23,14 @@ y is a value of x.f exactly when x is a value of y.g, for every pair of opposite
 theorem C01_reachable (mm : MM) (hwf : mm.WF) (ops : List Op) :
     ∀ f g, (mm.feat f).opp = some g → ∀ x y, y ∈ (run mm ops).rs x f ↔ x ∈ (run mm ops).rs y g :=
   (inv_run mm hwf ops).1
+
+/-- … and **every history that also uses the other mutators of a set** (`discard`, `difference_update` / `-=`,
+`intersection_update` / `&=`, `symmetric_difference_update` / `^=`; `Model/SetOps.lean`): it ends where a history of
+public calls ends (`runAny_flat`). -/
+theorem C01_reachable_setops (mm : MM) (hwf : mm.WF) (w : List (Op ⊕ SetOp)) :
+    ∀ f g, (mm.feat f).opp = some g → ∀ x y, y ∈ (runAny mm w).rs x f ↔ x ∈ (runAny mm w).rs y g := by
+  obtain ⟨ops, h⟩ := runAny_flat mm w
+  rw [h]; exact C01_reachable mm hwf ops
 
 /-- **Re-pointing releases the previous partner** (single-valued `f`, any multiplicity of the opposite, containment
 or not): after `x.f = y`, `x.f` is exactly `y`, and no other object `y0` still holds `x` in the opposite. -/
